@@ -294,12 +294,22 @@ def classify(prop, violations):
     C++ classifier from monitor/op/expected/observed) and 'witness'.
     Returns (unknown, known) lists; known entries carry the matching finding id."""
     known = [k for k in load_known() if k.get("status") == "known" and k.get("property") == prop]
-    kcls = {}
+    import re
+    kcls, kpat = {}, []
     for k in known:
         kcls[k["class"]] = k
+        # the only wildcard allowed: "(*)" standing for one parenthesised witness value (e.g. a code point) that the
+        # driver's scope predicate put into the class; everything outside the parentheses must match literally
+        if "(*)" in k["class"]:
+            kpat.append((re.compile("^" + re.escape(k["class"]).replace(re.escape("(*)"), r"\([^()]*\)") + "$"), k))
     unknown, kn = [], []
     for v in violations:
         k = kcls.get(v.get("class"))
+        if k is None:
+            for rx, kk in kpat:
+                if rx.match(v.get("class", "")):
+                    k = kk
+                    break
         if k is not None:
             v = dict(v)
             v["finding_id"] = k.get("id")
